@@ -1,0 +1,11 @@
+//go:build verif
+
+package consensus
+
+import "go.sia.tech/core/types"
+
+// VerifValidCoveredFields exposes validCoveredFields (the range check in front of
+// the v1 sighash functions) to the verification harness.
+func VerifValidCoveredFields(txn types.Transaction, cf types.CoveredFields) bool {
+	return validCoveredFields(txn, cf)
+}
